@@ -84,6 +84,14 @@ def run(chk):
                 r.shuffle(cps)
         glyphs = S.random_scenario(r, n_glyphs=len(cps), reuse_bias=0.8, allow_special=False)
         glyphs = [(cps[i], vb, specs) for i, (_, vb, specs) in enumerate(glyphs)]
+        if k % 2 == 0 and len(glyphs) >= 2:
+            # the pair shares a shape for certain: the second glyph of the pair (in input order) carries a translated copy
+            # of the first glyph's first shape
+            (c0, vb0, s0), (c1, vb1, s1) = glyphs[0], glyphs[1]
+            L = s0[0]
+            copy = S.LayerSpec(L.cls, (L.place[0], L.place[1], L.place[2], L.place[3], L.place[4] * 0.6 + 15, L.place[5] * 0.6 + 20),
+                               S.FillSpec("solid", color=S.PALETTE[k % len(S.PALETTE)], index=None), 1.0)
+            glyphs[1] = (c1, vb0, list(s1) + [copy])
         fmt = "picosvg" if k % 3 else "picosvgz"
         replay = {"format": fmt, "family": "names", "codepoints": [list(c) for c in cps], "scenario_seed": [chk.seed, k]}
         chk.case(key=("names", k), nontrivial=True)
